@@ -265,6 +265,18 @@ pub fn judge(tcs: &[String], cfg: &Cfg, pattern: &str, stages: Option<&Stages>) 
         Ok(d) => d,
         Err(s) => return mk(Verdict::Inconclusive(format!("compare: {}", s))),
     };
+    // Compiling the engine for Unicode classes such as \w costs milliseconds; the sampling
+    // cross-check of an "equal" verdict is a guard on the comparator, not the oracle itself, so
+    // with class conversion it runs on a deterministic quarter of the cases (always otherwise).
+    if diff == Diff::Equal && cfg.classes() {
+        let mut h: u64 = 0xcbf29ce484222325;
+        for b in pattern.bytes() {
+            h = (h ^ b as u64).wrapping_mul(0x100000001b3);
+        }
+        if h % 4 != 0 {
+            return mk(Verdict::Equal);
+        }
+    }
     let matcher = match FullMatcher::new(&body) {
         Ok(m) => m,
         Err(e) => return mk(Verdict::Inconclusive(format!("engine: {}", e))),
